@@ -8,7 +8,7 @@
    final theorems for uniformity with TotalProofs.v; they are not used). *)
 From Coq Require Import NArith ZArith List Lia Bool.
 From Coq Require Import ZifyBool ZifyN ZifyNat.
-From Desert Require Import Bits Outcome IO IOProofs Types Codec CodecWf TotalProofs.
+From Desert Require Import Bits Outcome IO IOProofs Types Calendar Codec CodecWf TotalProofs.
 Import ListNotations.
 Open Scope N_scope.
 
@@ -247,9 +247,65 @@ Proof.
   apply stable_ret.
 Qed.
 
+(* --- features/chrono.rs helpers --- *)
+Lemma dec_small_stable lo hi : stable (dec_small a_ops lo hi).
+Proof.
+  unfold dec_small.
+  sbind ltac:(apply read_i8_stable). intros z. cbv beta iota.
+  destruct (_ && _); [apply stable_ret | apply stable_err].
+Qed.
+
+Lemma dec_offset_stable : stable (dec_offset a_ops).
+Proof.
+  unfold dec_offset.
+  sbind ltac:(apply r_u8_stable). intros t. cbv beta iota.
+  destruct (t =? 0); [|apply stable_err].
+  sbind ltac:(apply read_var_i32_stable). intros z. cbv beta iota.
+  destruct (valid_offset z); [apply stable_ret | apply stable_err].
+Qed.
+
+Lemma dec_tz_stable : stable (dec_tz a_ops).
+Proof.
+  unfold dec_tz.
+  sbind ltac:(apply r_u8_stable). intros t. cbv beta iota.
+  destruct (t =? 1); [|apply stable_err].
+  sbind ltac:(apply dec_string_stable). intros v. cbv beta iota.
+  destruct v; try apply stable_err.
+  destruct (tz_known bs); [apply stable_ret | apply stable_err].
+Qed.
+
+Lemma dec_ndate_stable : stable (dec_ndate a_ops).
+Proof.
+  unfold dec_ndate.
+  sbind ltac:(apply read_var_u32_stable). intros y. cbv beta iota.
+  sbind ltac:(apply r_u8_stable). intros m. cbv beta iota.
+  sbind ltac:(apply r_u8_stable). intros d. cbv beta iota zeta.
+  destruct (valid_ymd _ m d); [apply stable_ret | apply stable_err].
+Qed.
+
+Lemma dec_ntime_stable : stable (dec_ntime a_ops).
+Proof.
+  unfold dec_ntime.
+  sbind ltac:(apply r_u8_stable). intros h. cbv beta iota.
+  sbind ltac:(apply r_u8_stable). intros mi. cbv beta iota.
+  sbind ltac:(apply r_u8_stable). intros sec. cbv beta iota.
+  sbind ltac:(apply read_var_u32_stable). intros ns. cbv beta iota.
+  destruct (valid_hmsn h mi sec ns); [apply stable_ret | apply stable_err].
+Qed.
+
+Lemma dec_ndt_stable : stable (dec_ndt a_ops).
+Proof.
+  unfold dec_ndt.
+  sbind ltac:(apply dec_ndate_stable). intros d. cbv beta iota.
+  sbind ltac:(apply dec_ntime_stable). intros t. cbv beta iota.
+  apply stable_ret.
+Qed.
+
 Lemma dec_prim_stable p : stable (dec_prim a_ops p).
 Proof.
   seta. destruct p; unfold dec_prim; try apply stable_err.
+  all: try first [ apply dec_small_stable | apply dec_offset_stable | apply dec_tz_stable
+                 | apply dec_ndate_stable | apply dec_ntime_stable | apply dec_ndt_stable ].
   all: try (sbind ltac:(first [ apply r_u8_stable | apply read_i8_stable | apply read_be_stable
                                | apply read_signed_stable | apply r_bytes_stable ]);
             intros x; cbv beta iota; try apply stable_ret).
@@ -262,6 +318,22 @@ Proof.
   - apply dec_bytes_stable.
   - sbind ltac:(apply dec_bytes_stable). intros v. cbv beta iota.
     destruct v; try apply stable_err. apply stable_ret.
+  - (* DateTime<Utc> *)
+    sbind ltac:(apply read_be_stable). intros y. cbv beta iota.
+    destruct (valid_ts x y); [apply stable_ret | apply stable_err].
+  - (* DateTime<FixedOffset> *)
+    sbind ltac:(apply dec_ndt_stable). intros dt. cbv beta iota.
+    sbind ltac:(apply dec_offset_stable). intros off. cbv beta iota.
+    destruct off; try apply stable_err.
+    destruct (valid_local_with_offset _ z); [apply stable_ret | apply stable_err].
+  - (* DateTime<Tz> *)
+    sbind ltac:(apply dec_ndt_stable). intros dt. cbv beta iota.
+    sbind ltac:(apply dec_tz_stable). intros tz. cbv beta iota.
+    apply stable_ret.
+  - (* var_u32 *)
+    sbind ltac:(apply read_var_u32_stable). intros n. cbv beta iota. apply stable_ret.
+  - (* var_i32 *)
+    sbind ltac:(apply read_var_i32_stable). intros n. cbv beta iota. apply stable_ret.
 Qed.
 
 (* ------------------------------------------------------------------ *)
